@@ -12,3 +12,4 @@ CONSTANTS
   HandoffChecksCapacity = FALSE
   ForwardCountedOnce = FALSE
   SourceKeyFromMapping = FALSE
+  WithFail = FALSE
